@@ -19,7 +19,7 @@ from tools.props import c05_types as T
 MANIFEST = {
     "level_text": "Coq theorems (Properties/C05.v, no axioms) over a faithful Gallina transcription of parse_type_structure, the default/TypeScript/Zod visitors, the Zod schema builder and add_types_prefix, for every type of the documented language (unbounded nesting): C05_sound_plain (the text printed at parameter, field and channel sites denotes, under an independent TypeScript type parser with real precedences, exactly the README-table shape of the Rust type) on the complement of three boolean defect classes, each with a computed refutation inside Coq; C05_compositional; C05_parse_faithful (string -> TypeStructure round trip). The model is tied to /repo on every run: every constructor spine to depth 2 (quick) / 3 (thorough), all 14 numeric widths, random types to depth 6 and a malformed-string stream are pushed through the real parsers, visitors, schema builder and the real partial templates, compared string for string with the extracted model at all five sites in both modes, and the extracted specification is applied to the implementation's text.",
     "design_ref": "DESIGN.md section 5 C05",
-    "level_note": "Proved in Coq for all types: plain-mode parameter/field/channel sites and the Zod-mode channel site (C05_sound_plain), namespace-qualified return/event sites only as C05_sound_prefix_partial (types whose text add_types_prefix handles: primitives, names, arrays of those, and | null around them; the general statement is kept as C05_sound_full_statement). Zod-mode parameter/field sites (schema text read back as the inferred type by Spec/C05Spec.zshape) are covered by the run-time oracle and correspondence only, no theorem. Event payload type inference (event_parser.rs) and whole-project generation through the CLI are not exercised here: the event site starts from EventInfo.payload_type. The TypeScript grammar subset, the Zod reading and the README table are specifications, not proved against tsc / zod / serde_json.",
+    "level_note": "Proved in Coq for all types at any depth: plain-mode parameter/field/channel sites and the Zod-mode channel site (C05_sound_plain, C05_compositional_*, C05_parse_faithful). For the namespace-qualified return/event sites (add_types_prefix) and the Zod-mode parameter/field schemas (read back as the inferred type by Spec/C05Spec.zshape) there is no for-all theorem: the statement is kept as C05_sound_full_statement and is machine-checked only on bounded sweeps of the model (C05_sweep_sound_depth1_partial / C05_classes_exact_depth1_partial in the property file: 196 types x 5 sites x 2 modes; the depth-2 sweep over the 3763 types of the quick enumeration is coq/Proofs/C05Sweep2.v, compiled by the thorough tier and kept out of the property's coqchk closure) plus the run-time oracle and correspondence. Event payload type inference (event_parser.rs) and whole-project generation through the CLI are not exercised: the event site starts from EventInfo.payload_type. The two parser classes are slightly broader than the defect (they include types whose comma sits in a discarded Err argument; those cases pass). The TypeScript grammar subset, the Zod reading and the README table are specifications, not proved against tsc / zod / serde_json.",
     "technique": "Rocq/Coq proof over hand-written model + correspondence check (extracted OCaml vs Rust harness)"
 }
 
@@ -220,6 +220,12 @@ def run(rep):
     run_stream(rep, "random", [{"ty": T.random_type(rng, rng.randint(2, 6))} for _ in range(nrand)], stats)
     run_stream(rep, "random-clean", [{"ty": T.random_clean_type(rng, rng.randint(2, 6))} for _ in range(nrand)], stats)
     rep.add("raw", evaluate_raw(raw_cases(rng, 20000 if thorough else 3000)))
+    if thorough:
+        # the depth-2 sweep of the model inside Coq (same enumeration as the quick tier's spines stream)
+        rc, out = vlib.coq_make(["Proofs/C05Sweep2.vo"], timeout=2700)
+        rep.extra["depth2_sweep_in_coq"] = "Proofs/C05Sweep2.vo compiled" if rc == 0 else "FAILED"
+        if rc != 0 and rep.proof is not None:
+            rep.proof["problems"].append("Proofs/C05Sweep2.vo (depth-2 sweep of the model) does not compile:\n" + out[-2000:])
     rep.extra["class_counts"] = stats.get("classes", {})
     rep.extra["in_class_but_property_holds"] = stats.get("in_class_but_ok", {})
     rep.extra["out_of_domain_cases"] = stats.get("out_of_domain", 0)
